@@ -108,6 +108,7 @@ class EstimCase:
         self.residual = make_residual(run['residual'])
         self.spec = run['residual']
         self._serial = {}
+        self._lists = {}
         simclock.reset()
 
     def replay(self, ops):
@@ -127,6 +128,7 @@ class EstimCase:
                 'model': True
             }, [])
         self._serial = {}
+        self._lists = {}
 
     def viol(self, cls, site, detail, match=None):
         d = dict(detail)
@@ -136,13 +138,23 @@ class EstimCase:
         raise Violation(PROP, cls, site, d, match or {})
 
     def elems(self, op):
+        # 'share': the client keeps one list object per ordering and passes
+        # it again in later calls (until the mesh changes), as a driver that
+        # holds on to its element list does
+        key = (op.get('order'), op.get('order_seed')
+               if op.get('order') == 'perm' else None)
+        if op.get('share') and key in self._lists:
+            self.cov.inc('probe.same_list_object_again')
+            return self._lists[key]
         leaves = sorted(self.mesh.leaf_elements,
                         key=lambda e: (e.time_interval, e.space_interval))
         if op.get('order') == 'impl':
-            return list(self.mesh.leaf_elements)
-        if op.get('order') == 'perm':
+            leaves = list(self.mesh.leaf_elements)
+        elif op.get('order') == 'perm':
             rng = stream(op['order_seed'], 'perm')
             rng.shuffle(leaves)
+        if op.get('share'):
+            self._lists[key] = leaves
         return leaves
 
     def call(self, site, fn):
@@ -173,6 +185,12 @@ class EstimCase:
         self.cov.inc('opkind.' + kind)
         self._n_done = self.run['ops'].index(op) if op in self.run[
             'ops'] else 0
+        if op.get('residual'):
+            # the same estimator object is asked about another function
+            self.residual = make_residual(op['residual'])
+            self.spec = op['residual']
+            self._serial = {}
+            self.cov.inc('probe.residual_switched')
         if kind == 'refine':
             self.replay(op['ops'])
             self.log.append(('refine', len(self.mesh.leaf_elements)))
@@ -193,6 +211,10 @@ class EstimCase:
         simdisk.arm(stats=self.cov)
         simmp.arm(op.get('workers', 4), H(op.get('sched_seed', 0)),
                   stats=self.cov, clock=simclock.CLOCK)
+        pooled = None
+        if op.get('use_mp') and op.get('pool_first'):
+            pooled = self.call(kind + '/pool',
+                               lambda: fn(elems, self.residual, use_mp=True))
         serial = self.call(kind + '/serial',
                            lambda: fn(elems, self.residual, use_mp=False))
         self.cov.inc('path.serial')
@@ -201,8 +223,10 @@ class EstimCase:
             self.viol('wrong-shape', kind + '/serial',
                       {'shape': getattr(serial, 'shape', None)})
         if op.get('use_mp'):
-            pooled = self.call(kind + '/pool',
-                               lambda: fn(elems, self.residual, use_mp=True))
+            if pooled is None:
+                pooled = self.call(
+                    kind + '/pool',
+                    lambda: fn(elems, self.residual, use_mp=True))
             self.cov.inc('path.pool')
             if not isinstance(pooled, np.ndarray) or (
                     pooled.shape != serial.shape
@@ -679,6 +703,36 @@ def gen_run(seed, params):
                     'axis': rng.choice([0, 1])
                 }]
             })
+    # call histories on one estimator object: the client's list object
+    # passed again, another residual from some call on (own stream: the runs
+    # without these features stay what they were)
+    hrng = stream(seed, 'workload-hist')
+    if hrng.random() < params.get('p_hist', 0.3):
+        share = hrng.random() < 0.7
+        extra = []
+        for k in range(hrng.randint(1, 3)):
+            extra.append({
+                'op': hrng.choice(['sobolev', 'sobolev', 'wl2']),
+                'use_mp': True,
+                'workers': hrng.randint(1, 16),
+                'sched_seed': hrng.randrange(1 << 30),
+                'order': hrng.choice(['impl', 'canon']),
+                'order_seed': 0,
+                'n_rows': 2
+            })
+        ops = ops + extra
+        first = True
+        for op in ops:
+            if op['op'] not in ('sobolev', 'wl2'):
+                continue
+            if share:
+                op['share'] = True
+                op['order'] = 'canon' if op['order'] == 'perm' else op['order']
+            if hrng.random() < 0.3:
+                op['pool_first'] = True
+            if not first and hrng.random() < 0.6:
+                op['residual'] = gen_residual(hrng, orders, curve)
+            first = False
     run = {'curve': curve, 'history': hist, 'orders': orders,
            'residual': residual, 'ops': ops}
     if time is not None:
